@@ -149,6 +149,11 @@ def ask(z, q):
         if kind in ("ambg", "exists"):      # PEP 495 classification through the public helpers
             from dateutil import tz as _tz
             return str((_tz.datetime_ambiguous if kind == "ambg" else _tz.datetime_exists)(q[1], z))
+        if kind == "resolve":       # tz.resolve_imaginary on the datetime attached to the zone (wt-tzfile: C05's shared-object streams)
+            from dateutil import tz as _tz
+            _, dt, fold = q
+            r = _tz.resolve_imaginary(dt.replace(tzinfo=z, fold=fold))
+            return "%s|%d" % (r.replace(tzinfo=None).isoformat(), r.fold)
         if kind == "comp":          # _tzicalvtz: which component
             _, dt, fold = q
             return str(z._comps.index(z._find_comp(dt.replace(tzinfo=z, fold=fold))))
